@@ -742,6 +742,21 @@ def raised_headers(v, base):
     return {n: val}, [(n, val)], True
 
 
+def plain_headers(v, base):
+    """Headers of a raised HTTPError/HTTPStatus that Response.set_headers accepts: none / one arbitrary entry given as a dict /
+    the same given as a list of pairs (the Set-Cookie case is the compose_*[headers=set-cookie] harnesses, see FINDINGS)."""
+    k = v.choose(3, base + '-headers')
+    if k == 0:
+        return None, []
+    n, val = v.str(base + '_hname'), v.str(base + '_hval')
+    v.assume(n.lower() != 'set-cookie')
+    return ({n: val} if k == 1 else [(n, val)]), [(n, val)]
+
+
+def copy_container(h):
+    return None if h is None else (dict(h) if isinstance(h, dict) else list(h))
+
+
 def same_container(now, before):
     """A headers argument (None / dict / list of pairs) still holds the very same names and values."""
     if before is None:
@@ -840,20 +855,32 @@ def default_handler(v, asgi, which):
     PARAM = Tok('param')
     params = {'id': PARAM}
     HTTPStatus, HTTPError = v.real('falcon:HTTPStatus'), v.real('falcon:HTTPError')
+    # (the handled HTTPStatus / HTTPError carries headers of its own or none: "produces its own status AND HEADERS")
+    hdrs, pairs = None, []
     if which == 'status':
         text = v.str('st_text') if v.choose(2, 'st-text?') else None
-        ex = mk_exc(v, HTTPStatus, status=v.str('st_status'), headers=None, text=text)
+        hdrs, pairs = plain_headers(v, 'st')
+        ex = mk_exc(v, HTTPStatus, status=v.str('st_status'), headers=hdrs, text=text)
     elif which == 'error':
-        ex = mk_exc(v, HTTPError, status=v.str('err_status'), headers=None, title=v.str('err_title'), description=None, code=None, link=None)
+        hdrs, pairs = plain_headers(v, 'err')
+        ex = mk_exc(v, HTTPError, status=v.str('err_status'), headers=hdrs, title=v.str('err_title'), description=None, code=None, link=None)
     else:
         ex = mk_exc(v, [Sub, KeyError, Exception][v.choose(3, 'raised')])
-    v.expect_covers('handled')
+    v.expect_covers('handled', *(['handled-with-headers'] if which != 'python' else []))
+    hdrs0 = copy_container(hdrs)
     app0, req0, resp0, ex0 = snapshot(app), snapshot(req), snapshot(resp), snapshot(ex)
     out = v.call(app, req, resp, ex, params)
     v.check('never-re-raises' if which == 'python' else 'returns-normally', out.exc is None and out.value is None)
     if out.exc is not None:
         return
-    v.check('headers-untouched', map_of(v, resp).eq(H0))
+    if pairs:
+        v.check('own-headers-of-the-handled-error-copied-others-unchanged', map_of(v, resp).eq(headers_after(H0, pairs)))
+        v.check('headers-container-of-the-handled-error-is-not-modified', same_container(hdrs, hdrs0))
+        if which == 'error' and len(ser.calls) == 1:
+            v.check('error-headers-are-in-place-before-the-serializer-runs', ser.headers_seen.eq(headers_after(H0, pairs)))
+        v.cover('handled-with-headers')
+    else:
+        v.check('headers-untouched', map_of(v, resp).eq(H0))
     # frames: a default handler renders; the app, the handled exception, the responder params and every response field other
     # than status / text / the serialized body are only read (the request at most receives the log line of the 500: WSGI)
     v.check('app-exception-and-params-are-not-modified', same_fields(snapshot(app), app0) and same_fields(snapshot(ex), ex0) and list(params.items()) == [('id', PARAM)])
